@@ -239,11 +239,15 @@ void uf_genkey(u8 *self, u32 round)
   CHECK(round >= 1 && round <= 10, "genkey called with a round in 1..10");
   uf_key(self + 16 * (round - 1), self + 16 * round, round);      /* state_t key[11] is the first member of keyhandle */
 }
-struct in_t { u8 key[16]; } IN;
+struct in_t { u8 key[16]; u8 key0[16]; } IN;
 void harness(void)
 {
   LOAD_INPUTS();
   u8 rk[176] ALIGNED, sk[176] ALIGNED;
+#ifdef HISTORY
+  /* process history: another (arbitrary) key was expanded before - the schedule of a key must not depend on it (no stale cache) */
+  { u8 rk0[176] ALIGNED; vf_key_expand(IN.key0, rk0); }
+#endif
   vf_key_expand(IN.key, rk);
   to_repo(IN.key, sk);
   for (u32 r = 1; r <= 10; r++) uf_key(sk + 16 * (r - 1), sk + 16 * r, r);
